@@ -13,6 +13,7 @@ import (
 	"github.com/google/go-cmp/cmp/cmpopts"
 	abcitypes "github.com/tendermint/tendermint/abci/types"
 	tmproto "github.com/tendermint/tendermint/proto/tendermint/types"
+	"google.golang.org/protobuf/proto"
 	"pgregory.net/rapid"
 
 	"github.com/shutter-network/rolling-shutter/rolling-shutter/app"
@@ -194,12 +195,13 @@ func TestC10_Injection(t *testing.T) {
 		// a correctly signed transaction of a member around a payload the application may refuse
 		// (structurally or semantically invalid): if it is answered with the error code it must
 		// have no effect either
-		classes = append(classes, "member-payload", "member-payload", "member-payload")
+		classes = append(classes, "member-payload", "member-payload", "member-payload", "signed-mutant", "signed-mutant")
 		class := rapid.SampledFrom(classes).Draw(rt, "class")
 		var tx []byte
 		var fsender = -1
 		const injNonce = uint64(1) << 40
 		validSig := false
+		mutDesc := ""
 		switch class {
 		case "raw":
 			tx = rapid.SliceOfN(rapid.Byte(), 0, 200).Draw(rt, "raw")
@@ -235,6 +237,29 @@ func TestC10_Injection(t *testing.T) {
 			fsender = ms
 			tx = uni.MakeTx(ms, apphist.ChainID, injNonce, msg)
 			validSig = true
+		case "signed-mutant":
+			// a correctly signed envelope around a structurally mutated MessageWithNonce (fields and
+			// sub-messages cleared, emptied, lengthened, scalars at boundaries); the nonce is put back so
+			// that the injected transaction cannot use up a nonce the history needs later
+			saved := c.M
+			c.M = pre.M
+			ms := c.genSender(rt)
+			msg, _ := c.genMessage(rt, ms)
+			c.M = saved
+			mwn := &shmsg.MessageWithNonce{Msg: msg, ChainId: []byte(apphist.ChainID), RandomNonce: injNonce}
+			var muts []string
+			for k, nm := 0, rapid.IntRange(1, 2).Draw(rt, "nMut"); k < nm; k++ {
+				muts = append(muts, mutateProto(rt, fmt.Sprintf("mw%d", k), mwn.ProtoReflect(), 0))
+			}
+			mwn.RandomNonce = injNonce
+			payload, err := proto.Marshal(mwn)
+			if err != nil {
+				rt.Skip("mutant does not marshal")
+			}
+			fsender = ms
+			tx = apphist.SignRaw(payload, uni.Keys[ms])
+			validSig = true
+			mutDesc = strings.Join(muts, ",")
 		case "foreign":
 			fsender = rapid.SampledFrom(foreign).Draw(rt, "fs")
 			msg, _ := c.genMessage(rt, fsender)
@@ -247,7 +272,7 @@ func TestC10_Injection(t *testing.T) {
 			validSig = true
 		}
 		mode := rapid.SampledFrom([]string{"deliver", "check", "both"}).Draw(rt, "mode")
-		if class == "member-payload" {
+		if class == "member-payload" || class == "signed-mutant" {
 			mode = "deliver"
 		}
 		var inj []call
@@ -290,12 +315,12 @@ func TestC10_Injection(t *testing.T) {
 		if wrapBlock {
 			injAt = pos + 1
 		}
-		if class == "member-payload" {
+		if class == "member-payload" || class == "signed-mutant" {
 			var resp abcitypes.ResponseDeliverTx
 			_ = resp.Unmarshal([]byte(outB[injAt].Data))
 			if resp.Code != 1 {
 				// executed (or acknowledged as seen): not a refused transaction, nothing to judge
-				rec.Case(fmt.Sprintf("%s|pos=%d|member-payload-not-refused|%x", c.DescString(), pos, tx), false, "class:member-payload-not-refused")
+				rec.Case(fmt.Sprintf("%s|pos=%d|%s-not-refused|%x", c.DescString(), pos, class, tx), false, "class:"+class+"-not-refused")
 				return
 			}
 		}
@@ -311,7 +336,7 @@ func TestC10_Injection(t *testing.T) {
 			case 'D':
 				var resp abcitypes.ResponseDeliverTx
 				_ = resp.Unmarshal([]byte(r.Data))
-				if class != "foreign" && class != "member-payload" && resp.Code == 0 {
+				if class != "foreign" && class != "member-payload" && class != "signed-mutant" && resp.Code == 0 {
 					fail("refused-tx-code-zero", "DeliverTx answered code 0 to a %s transaction\nhistory: %s", class, descCalls(callsB))
 				}
 				if len(resp.Events) > 0 {
@@ -339,7 +364,7 @@ func TestC10_Injection(t *testing.T) {
 			}
 		}
 		// final state
-		if (class == "foreign" || class == "member-payload") && mode != "check" {
+		if (class == "foreign" || class == "member-payload" || class == "signed-mutant") && mode != "check" {
 			a := uni.Addrs[fsender]
 			if m := appB.NonceTracker.RandomNonces[a]; m != nil {
 				delete(m, injNonce)
@@ -352,6 +377,10 @@ func TestC10_Injection(t *testing.T) {
 			fail("refused-tx-changes-state", "final state differs after injecting a %s transaction (mode %s):\n%s\nhistory: %s", class, mode, d, descCalls(callsB))
 		}
 		desc := fmt.Sprintf("%s|pos=%d|%s/%s|%x", c.DescString(), pos, class, mode, tx)
+		if mutDesc != "" {
+			rec.Case(desc, validSig, "class:"+class, "mode:"+mode, "mutant:"+strings.SplitN(strings.SplitN(mutDesc, ",", 2)[0], "[", 2)[0])
+			return
+		}
 		rec.Case(desc, validSig, "class:"+class, "mode:"+mode)
 	})
 }
